@@ -388,6 +388,16 @@ func (h *hist) iterate(t int, o itOpts, seek []byte) {
 		h.c.Oracle(false, "iter-value-error", "iterator item value could not be read", J{"history": h.desc})
 		return
 	}
+	for _, x := range items {
+		if o.PrefixIsKey && !bytes.Equal(x.Key, o.Prefix) {
+			h.c.Oracle(false, "iter-key-iterator-yields-other-key", "NewKeyIterator yielded a version of another key", J{"history": h.desc, "key": o.Prefix, "got": x.Key})
+			return
+		}
+		if !bytes.HasPrefix(x.Key, o.Prefix) {
+			h.c.Oracle(false, "iter-item-outside-prefix", "an iterator with Prefix yielded a key without that prefix", J{"history": h.desc, "prefix": o.Prefix, "got": x.Key})
+			return
+		}
+	}
 	if all || o.Internal {
 		// every yielded version must be a written one with identical content; order newest first per key
 		ok := true
